@@ -23,7 +23,7 @@ PROBE_NAMES = {
     6: "suspend count pulled back from the side counter", 7: "semaphore time-out undid its decrement", 8: "semaphore time-out lost the race with a signal and drained the wake-up",
     9: "group wake with waiters", 10: "group wake with notify blocks", 11: "dispatch_once slow wait", 13: "pool monitor poked a queue with no runnable worker",
     14: "EPOLLHUP / hang-up merged", 15: "deferred source unregistration acknowledged", 16: "dispatch_sync slow path (waiter enqueued)",
-    17: "dequeuer waited for a pre-empted enqueuer", 19: "dispatch_apply serial fallback", 20: "dispatch_apply redirect through custom queues",
+    17: "dequeuer waited for a pre-empted enqueuer", 26: "queue found away from its target at drain entry (bounced to the new target)", 19: "dispatch_apply serial fallback", 20: "dispatch_apply redirect through custom queues",
 }
 UNUSUAL_NAMES = {0: "barrier-sync fast path refused", 1: "sync width reservation refused", 2: "async acquire refused"}
 
